@@ -108,7 +108,9 @@ Theorem c04_refuted_json_meta :
 Proof.
   split; [vm_compute; reflexivity|]. split.
   - intros H. apply imap_spec_b_iff in H. vm_compute in H. discriminate.
-  - eexists; eexists. vm_compute. repeat split; reflexivity.
+  - exists (build_body inj_user (S_ "pw")),
+           [(K_EMAIL, S_ "victim@d.test"); (K_EMAIL, S_ "attacker@d.test"); (K_PASSWORD, S_ "pw")].
+    repeat split; vm_compute; reflexivity.
 Qed.
 Print Assumptions c04_refuted_json_meta.
 
